@@ -238,7 +238,7 @@ func (g *Gen) trans(e *Expr, env *TEnv) tvT {
 		// indexes a slice as s[i + c], quantify over the ABSOLUTE position k = off(s) + i + c instead
 		// (a bijection), so that the instantiation pattern is the plain select term at k. Index
 		// arithmetic inside patterns defeats E-matching (terms get re-associated).
-		if len(e.Vars) == 1 && so64(bs[0]) && os.Getenv("GOVC_ABSIDX") != "" {
+		if len(e.Vars) == 1 && so64(bs[0]) && (os.Getenv("GOVC_ABSIDX") != "" || (g.topC != nil && g.topC.AbsIdx)) {
 			if prim, sl, off := findPrimaryIndex(e.Args[0], e.Vars[0].Name); prim != nil {
 				func() {
 					defer func() {
@@ -886,6 +886,19 @@ func (g *Gen) transCall(e *Expr, env *TEnv) tvT {
 			g.fail("arr() of non-slice")
 		}
 		return tvT{t: fmt.Sprintf("(base %s)", x.t), sort: "Int"}
+	case "offs":
+		// offs(s): position of s[0] inside its backing array (with arr(s): where exactly the slice lives)
+		x := g.trans(args[0], env)
+		if x.gt == nil {
+			g.fail("offs() of non-slice")
+		}
+		if _, ok := x.gt.Underlying().(*types.Slice); !ok {
+			g.fail("offs() of non-slice")
+		}
+		if g.bv {
+			return tvT{t: fmt.Sprintf("(off %s)", x.t), gt: types.Typ[types.Int]}
+		}
+		return tvT{t: fmt.Sprintf("(off %s)", x.t), gt: mathInt}
 	case "whole":
 		// whole(x): the storage x refers to (a slice's backing array, or the object a pointer denotes) is an
 		// allocation of its own, not an array or struct embedded in another object
